@@ -26,6 +26,10 @@ CLAIMED = {
          "Exploration by runtime monitoring: rename with a fresh identifier at every renameable occurrence of generated workspaces; each returned edit must be disjoint from the others and cover exactly the old name in the client's own text, the edit set must equal the reference binder's occurrence class, and after applying the edit the reference front end must accept the files with an isomorphic binding graph; on a sample a fresh server on the renamed workspace must report the same diagnostics up to the name.",
          "Trusts R-parse/R-bind and R-text. Diagnostics that mention a multiply-assigned global are excluded from the before/after comparison (their content varies between runs, C09).",
          "DESIGN.md 3/C11"),
+ "C12": ("online relational monitor: definition / references / documentHighlight / hover answers of the same position cross-compared",
+         "Exploration by runtime monitoring with a purely relational oracle: for every variable occurrence of generated workspaces and every identifier token of the repository's testdata the four answers are cross-checked (references resolve to the same definition, the position is among the references of its own definition, highlight equals same-file references, hover names the identifier and says local iff the definition is a local declaration). Disagreements rooted in the known resolver trigger classes, multiply-assigned globals and member names are listed findings.",
+         "No external oracle; R-lex only supplies identifier positions and R-bind the local/global nature of a definition. Sessions contain no didChange (highlight is throttled after edits). Member identifiers are only exercised on testdata.",
+         "DESIGN.md 3/C12"),
 }
 
 PENDING_REASON = "check not built yet in this revision of /verif (work in progress; see DESIGN.md section 3 for the planned monitor)"
